@@ -109,6 +109,38 @@ fn prepare(book: &mut Spreadsheet, kind: &str, pre: u32) {
     }
 }
 
+/// what the caller does with the option switches AFTER the password was set (post = pre / 3):
+/// 0 nothing, 1 every switch off, 2 every switch off then on, 3 the main switch off then on, 4 every switch on.
+/// None of them may touch the stored verifier.
+fn post_flags(book: &mut Spreadsheet, kind: &str, post: u32) {
+    let rounds: &[bool] = match post {
+        1 => &[false],
+        2 | 3 => &[false, true],
+        4 => &[true],
+        _ => &[],
+    };
+    for &v in rounds {
+        if kind == "sheet" {
+            let p = book.get_sheet_mut(&0).unwrap().get_sheet_protection_mut();
+            p.set_sheet(v);
+            if post != 3 {
+                p.set_objects(v).set_delete_rows(v).set_insert_columns(v).set_delete_columns(v).set_insert_hyperlinks(v).set_auto_filter(v).set_scenarios(v);
+                p.set_format_cells(v).set_format_columns(v).set_insert_rows(v).set_format_rows(v).set_pivot_tables(v).set_select_locked_cells(v).set_select_unlocked_cells(v).set_sort(v);
+            }
+        } else {
+            let p = book.get_workbook_protection_mut();
+            if kind == "workbook" {
+                p.set_lock_structure(v);
+            } else {
+                p.set_lock_revision(v);
+            }
+            if post != 3 {
+                p.set_lock_structure(v).set_lock_revision(v).set_lock_windows(v);
+            }
+        }
+    }
+}
+
 fn apply_setter(book: &mut Spreadsheet, kind: &str, pw: &str) {
     match kind {
         "sheet" => {
@@ -152,10 +184,12 @@ struct SetResult {
 
 /// run setter → observe → save → scan → reload → observe, evaluating the oracle on the way
 fn run_set(out: &mut Out, line: &str, kind: &str, pw: &str, pre: u32) -> Result<SetResult, String> {
+    let (pre, post) = (pre % 3, pre / 3);
     let mut book = umya_spreadsheet::new_file();
     prepare(&mut book, kind, pre);
     let mut twin = book.clone();
     apply_setter(&mut book, kind, pw);
+    post_flags(&mut book, kind, post);
     let mem = observe(&book, kind).ok_or("no-protection-object")?;
     let fail = |out: &mut Out, class: &str, detail: String| {
         out.oracle_fail(Fail::new(class).with("op", line).with("kind", kind).with("pw", pw).with("detail", detail));
@@ -250,6 +284,7 @@ fn stored_replay(kind: &str, pw: &str, pre: u32, salt64: &str) -> Result<String,
     let salt = ind::unb64(salt64).ok_or("bad-salt")?;
     let h = umya_spreadsheet::helper::crypt::verif_convert_password_to_hash(pw, "SHA-512", &salt, 100000);
     let hash64 = ind::b64(&h);
+    let (pre, post) = (pre % 3, pre / 3);
     let mut book = umya_spreadsheet::new_file();
     prepare(&mut book, kind, pre);
     match kind {
@@ -269,6 +304,7 @@ fn stored_replay(kind: &str, pw: &str, pre: u32, salt64: &str) -> Result<String,
             p.remove_revisions_password_raw();
         }
     }
+    post_flags(&mut book, kind, post);
     let mem = observe(&book, kind).ok_or("no-protection-object")?;
     let bytes = save(&book)?;
     let parts = ind::zip_parts(&bytes)?;
@@ -314,7 +350,8 @@ pub fn exec(out: &mut Out, line: &str) -> (String, bool, Vec<(String, String)>) 
                 return ("bad-op".into(), false, vec![]);
             }
             out.count(&format!("set.kind.{}", kind));
-            out.count(&format!("set.pre.{}", pre));
+            out.count(&format!("set.pre.{}", pre % 3));
+            out.count(&format!("set.post-switches.{}", pre / 3));
             out.count(&format!("set.pw.{}", if pw.is_empty() { "empty" } else if pw.is_ascii() { "ascii" } else if pw.chars().any(|c| c as u32 > 0xffff) { "non-bmp" } else { "bmp" }));
             match guard(|| run_set(out, line, kind, &pw, pre)) {
                 Ok(Ok(r)) => {
@@ -465,6 +502,10 @@ pub fn gen(tier: Tier, seed: u64) -> Vec<String> {
     for (i, pw) in pws.iter().enumerate() {
         for (k, kind) in KINDS.iter().enumerate() {
             ops.push(format!("c15 set {} {} {}", kind, hex(pw), (i + k) % 3));
+            // the option switches are used after the password was set (post = 1..4, see post_flags)
+            if i < 8 {
+                ops.push(format!("c15 set {} {} {}", kind, hex(pw), (i + k) % 3 + 3 * (1 + (i + k) % 4)));
+            }
         }
     }
     // freshness across calls and kinds on ONE workbook object (exploration: randomness is not a functional property)
